@@ -22,6 +22,8 @@ def attach(run):
     if cl & {"C05", "C06", "C11.d"}:
         run.monitor = True
         mons.append(ScheduleMonitor(run))
+    if "C08.g" in cl and run.adapter.name in ("td3_lap", "td7", "mrq", "ddqn_per"):
+        mons.append(PriorityMonitor(run))
     if "C15" in cl and run.adapter.name == "td7":
         mons.append(DeferredTrainingMonitor(run))
     if cl & {"C10.b", "C10.c"} and run.plan.get("supply_targets") and run.adapter.name in ("td3", "td3_lap"):
@@ -795,3 +797,86 @@ class DeferredTrainingMonitor:
         if ref.switches:
             run.res.fault("window_switch")
         run.res.probe("td7_timelines")
+
+
+class PriorityMonitor:
+    """C08.g/i inside training: the loops hand positive finite priorities to the buffer, every
+    update_priority directly follows a sample_batch on the same buffer (no add in between), and
+    lap_priority / per_priority are non-decreasing on the |TD| values that actually flowed."""
+
+    MODS = {"td3_lap": "rl_blox.algorithm.td3_lap", "td7": "rl_blox.algorithm.td7", "mrq": "rl_blox.algorithm.mrq", "ddqn_per": "rl_blox.algorithm.per"}
+
+    def __init__(self, run):
+        import importlib
+
+        self.run = run
+        self.calls = []
+        self.flow = []
+        buf = run.buffer
+        base = type(buf)
+        mon = self
+
+        class Recording(base):
+            def add_sample(self, *a, **k):
+                mon.calls.append(("add",))
+                return base.add_sample(self, *a, **k)
+
+            def sample_batch(self, *a, **k):
+                mon.calls.append(("sample", a[0] if a else k.get("batch_size")))
+                return base.sample_batch(self, *a, **k)
+
+            def update_priority(self, priority):
+                mon.calls.append(("update", np.array(np.asarray(priority), dtype=np.float64, copy=True)))
+                return base.update_priority(self, priority)
+
+        buf.__class__ = Recording
+        self.mod = importlib.import_module(self.MODS[run.adapter.name])
+        self.undo = []
+        for fn in ("lap_priority", "per_priority"):
+            if hasattr(self.mod, fn):
+                orig = getattr(self.mod, fn)
+
+                def wrapper(abs_td_error, *a, _orig=orig, _fn=fn, **k):
+                    out = _orig(abs_td_error, *a, **k)
+                    mon.flow.append((_fn, np.asarray(abs_td_error, dtype=np.float64).reshape(-1), np.asarray(out, dtype=np.float64).reshape(-1)))
+                    return out
+
+                setattr(self.mod, fn, wrapper)
+                self.undo.append((fn, orig))
+        run._undo = getattr(run, "_undo", [])
+
+    def finish(self):
+        run = self.run
+        for fn, orig in self.undo:
+            setattr(self.mod, fn, orig)
+        prev = None
+        for c in self.calls:
+            if c[0] == "update":
+                v = c[1].reshape(-1)
+                if not np.all(np.isfinite(v)) or np.any(v <= 0):
+                    run.V("C08.g", f"training passed a non-positive / non-finite priority to the buffer: {v[:6]}")
+                    return
+                if prev is None or prev[0] != "sample":
+                    run.V("C08.i", f"update_priority was not directly preceded by sample_batch on the same buffer (previous operation: {prev[0] if prev else None})")
+                    return
+                if v.size not in (1, int(prev[1])):
+                    run.V("C08.i", f"{v.size} priorities supplied for a batch of {prev[1]}")
+                    return
+                run.res.probe("training_priority_updates")
+            prev = c
+        for fn, x, y in self.flow:
+            if x.size != y.size:
+                continue
+            o = np.argsort(x, kind="stable")
+            xs, ys = x[o], y[o]
+            if np.any(ys <= 0):
+                run.V("C08.g", f"{fn} produced a non-positive priority for |TD| {xs[np.argmin(ys)]}")
+                return
+            bad = np.nonzero((np.diff(ys) < -1e-6 * (1 + np.abs(ys[:-1]))) & (np.diff(xs) > 0))[0]
+            if bad.size:
+                i = int(bad[0])
+                run.V("C08.g", f"{fn} is not non-decreasing on the |TD| errors of one batch: |TD| {xs[i]:.6g} -> {ys[i]:.6g} but {xs[i + 1]:.6g} -> {ys[i + 1]:.6g}")
+                return
+            run.res.probe("priority_monotone_batches")
+            if x.size > 1 and x.min() < 1.0 < x.max():
+                run.res.probe("td_errors_straddle_min_priority")
